@@ -489,6 +489,130 @@ static void mode_pair(int argc, char **argv) {
     hx_emit_stat("schedules", pair_scheds);
 }
 
+/* ------------------------------------------------------------------ tunnel mode (C16) ------- */
+static struct { size_t head_len, qlen, rhead_len; int status, payload, reqkind, expect_tunnel, expect_http; char desc[220]; } TT;
+static void tunnel_inspect(htp_connp_t *c, hx_obs *o, void *ctx) {
+    (void) ctx;
+    /* (i) before the first response byte is offered the request side consumes nothing beyond the CONNECT head */
+    size_t qcons = 0; int seen_res = 0, first_tunnel = -1;
+    for (int i = 0; i < o->ncalls; i++) {
+        const hx_call *k = &o->calls[i];
+        if (k->fn == 1) seen_res = 1;
+        if (k->fn == 0 && (k->rc == HTP_STREAM_DATA || k->rc == HTP_STREAM_DATA_OTHER)) {
+            qcons += k->rc == HTP_STREAM_DATA ? k->len : k->consumed;
+            if (!seen_res && TT.reqkind == 0 && qcons > TT.head_len)
+                hx_verdict_add("C16", "consumed_beyond_connect", "%s: request side consumed %zu bytes before any response byte, the CONNECT head is %zu bytes", TT.desc, qcons, TT.head_len);
+        }
+        if (k->rc == HTP_STREAM_TUNNEL && first_tunnel < 0) first_tunnel = i;
+        if (first_tunnel >= 0 && i > first_tunnel) {
+            /* the other direction may legitimately finish the call in which it learns about the tunnel */
+        }
+    }
+    size_t ntx = htp_list_size(c->conn->transactions);
+    if (TT.expect_tunnel) {
+        /* T = the first data call that reports TUNNEL.  It must exist (every byte of both streams is offered in every
+         * schedule), and from T on every data call of either direction reports TUNNEL and runs no callback (hence creates
+         * no transaction).  Bytes offered before T are not covered by the statement ("after which"). */
+        int T = -1;
+        for (int i = 0; i < o->ncalls; i++) if (o->calls[i].rc == HTP_STREAM_TUNNEL) { T = i; break; }
+        if (T < 0) hx_verdict_add("C16", "tunnel_not_entered", "%s: no data call ever reported TUNNEL", TT.desc);
+        else {
+            uint32_t ncb_at = o->calls[T].ncb_after;
+            for (int i = T + 1; i < o->ncalls; i++) {
+                const hx_call *k = &o->calls[i];
+                if (k->rc != HTP_STREAM_TUNNEL) hx_verdict_add("C16", "not_tunnel_rc", "%s: call %d (%s) returned %d after tunnel mode was entered at call %d", TT.desc, i, k->fn ? "res" : "req", k->rc, T);
+                if (k->ncb_after != ncb_at) hx_verdict_add("C16", "cb_in_tunnel", "%s: call %d ran callbacks in tunnel mode", TT.desc, i);
+                ncb_at = k->ncb_after;
+            }
+        }
+    }
+    if (TT.expect_http) {
+        if (ntx != 3) hx_verdict_add("C16", "resume_tx_count", "%s: CONNECT + 2 following requests were sent, %zu transactions reported", TT.desc, ntx);
+        for (size_t i = 1; i < ntx && i < 3; i++) {
+            htp_tx_t *tx = htp_list_get(c->conn->transactions, i); char want[8]; snprintf(want, sizeof want, "/t%zu", i);
+            if (!tx || !tx->request_uri || bstr_cmp_c(tx->request_uri, want) != 0) hx_verdict_add("C16", "resume_uri", "%s: transaction %zu is not request %s (a byte was skipped or parsed twice)", TT.desc, i, want);
+            char ws[8]; snprintf(ws, sizeof ws, "%d", 210 + (int) i);
+            if (tx && tx->response_status_number != 210 + (int) i) hx_verdict_add("C16", "resume_response", "%s: transaction %zu response status %d, expected %s", TT.desc, i, tx->response_status_number, ws);
+        }
+        if (qcons != TT.qlen) hx_verdict_add("C16", "resume_consumed", "%s: request side consumed %zu of %zu bytes", TT.desc, qcons, TT.qlen);
+        if (c->in_status == HTP_STREAM_ERROR || c->out_status == HTP_STREAM_ERROR) hx_verdict_add("C16", "resume_error", "%s: a direction ended in ERROR (%d/%d)", TT.desc, c->in_status, c->out_status);
+    }
+}
+static long tunnel_counter;
+static void tunnel_exec(const pchunk *q, int nq, const pchunk *r, int nr, int head_chunk, int adestroy) {
+    /* all interleavings in which no response chunk precedes the request chunk that completes the head, and (when the
+     * tunnel carries HTTP) no chunk with bytes of the follow-up responses precedes the last request chunk */
+    int tot = nq + nr; uint8_t sch[8];
+    for (unsigned m = 0; m < (1u << tot); m++) {
+        if (__builtin_popcount(m) != nr) continue;
+        int qi = 0, ri0 = 0, ok = 1;
+        for (int k = 0; k < tot; k++) {
+            if (m >> k & 1) {
+                if (qi <= head_chunk) ok = 0;
+                size_t rend = (size_t) (r[ri0].d - r[0].d) + r[ri0].n;
+                if (TT.expect_http && rend > TT.rhead_len && qi < nq) ok = 0;
+                ri0++;
+            } else qi++;
+            sch[k] = (uint8_t) (m >> k & 1);
+        }
+        if (!ok) continue;
+        hx_script_init(&S); S.inspect = tunnel_inspect; S.label = TT.desc; S.cfg.auto_destroy = (uint8_t) adestroy;
+        if (adestroy) S.inspect = NULL;       /* transactions are gone at the end: only the monitors judge */
+        qi = 0; int ri = 0;
+        for (int k = 0; k < tot; k++) { if (sch[k]) { hx_script_add(&S, OP_S, r[ri].d, r[ri].n); ri++; } else { hx_script_add(&S, OP_Q, q[qi].d, q[qi].n); qi++; } }
+        hx_script_add(&S, OP_CLOSE, NULL, 0);
+        if (hx_run(&S, &O)) continue;
+        n_exec++; n_calls += O.ncalls; cx_set_add(&outcomes, hx_fnv(O.cbtrace.p, O.cbtrace.n, 0));
+        hx_report_verdicts(&S, &O, PROPS);
+    }
+}
+static void mode_tunnel(int argc, char **argv) {
+    (void) argc; (void) argv;
+    static const int STAT[] = { 200, 204, 101, 407, 403, 500 };
+    static hx_buf q, r;
+    for (int reqkind = 0; reqkind < 2; reqkind++)            /* 0 CONNECT, 1 GET with Upgrade */
+    for (size_t si = 0; si < 6; si++) for (int payload = 0; payload < 3; payload++) for (int body = 0; body < 2; body++) {
+        int status = STAT[si];
+        if (reqkind == 1 && status != 101) continue;          /* the upgrade exchange is only about 101 */
+        int twoxx = status >= 200 && status < 300;
+        if ((twoxx || status == 101) && body) continue;        /* no body on a tunnel answer */
+        hb_reset(&q); hb_reset(&r);
+        if (reqkind == 0) hb_puts(&q, "CONNECT host.example:443 HTTP/1.1\r\nHost: host.example:443\r\n\r\n");
+        else hb_puts(&q, "GET /chat HTTP/1.1\r\nHost: h\r\nConnection: Upgrade\r\nUpgrade: websocket\r\n\r\n");
+        size_t head = q.n;
+        if (payload == 1) hb_puts(&q, "GET /t1 HTTP/1.1\r\nHost: h\r\n\r\nGET /t2 HTTP/1.1\r\nHost: h\r\n\r\n");
+        else if (payload == 2) hb_put(&q, "\x16\x03\x01\x00\x2e\x01\x00\x00\x2a\x03\x03\n\x00\xff", 14);
+        hb_printf(&r, "HTTP/1.1 %d X\r\n", status);
+        if (body) hb_puts(&r, "Content-Length: 2\r\n\r\nno"); else if (!twoxx && status != 101) hb_puts(&r, "Content-Length: 0\r\n\r\n"); else hb_puts(&r, "\r\n");
+        size_t rhead = r.n - (body ? 2 : 0);
+        int http_resume = (payload == 1) && (status != 101);
+        if (http_resume) hb_puts(&r, "HTTP/1.1 211 A\r\nContent-Length: 0\r\n\r\nHTTP/1.1 212 B\r\nContent-Length: 0\r\n\r\n");
+        else if (payload == 2 && (twoxx || status == 101)) hb_put(&r, "\x16\x03\x03\x00\x05hello\n\x01", 12);
+        else if (payload == 1 && status == 101) hb_put(&r, "\x81\x05hello", 7);
+        /* refused CONNECT followed by non-HTTP bytes is outside the statement */
+        if (payload == 2 && !(twoxx || status == 101)) continue;
+        TT.head_len = head; TT.qlen = q.n; TT.rhead_len = rhead; TT.status = status; TT.payload = payload; TT.reqkind = reqkind;
+        TT.expect_tunnel = (status == 101) || (twoxx && payload == 2 && reqkind == 0);
+        TT.expect_http = http_resume && reqkind == 0;
+        /* cut choices: none, or one cut in the +-3 window around the head end (both directions) */
+        for (int qc = -4; qc <= 3; qc++) for (int rc = -4; rc <= 3; rc++) for (int ad = 0; ad < 2; ad++) {
+            long id = tunnel_counter++;
+            if (id % hx_shard_n != hx_shard_i || hx_deadline_hit()) continue;
+            pchunk pq[2], pr[2]; int nq = 1, nr = 1, head_chunk = 0;
+            size_t qcut = qc == -4 ? 0 : head + (size_t) qc, rcut = rc == -4 ? 0 : rhead + (size_t) rc;
+            if (qcut > 0 && qcut < q.n) { pq[0] = (pchunk) { q.p, (uint32_t) qcut }; pq[1] = (pchunk) { q.p + qcut, (uint32_t) (q.n - qcut) }; nq = 2; head_chunk = qcut >= head ? 0 : 1; }
+            else pq[0] = (pchunk) { q.p, (uint32_t) q.n };
+            if (rcut > 0 && rcut < r.n) { pr[0] = (pchunk) { r.p, (uint32_t) rcut }; pr[1] = (pchunk) { r.p + rcut, (uint32_t) (r.n - rcut) }; nr = 2; }
+            else pr[0] = (pchunk) { r.p, (uint32_t) r.n };
+            snprintf(TT.desc, sizeof TT.desc, "%s status=%d payload=%s body=%d qcut=%d rcut=%d auto_destroy=%d", reqkind ? "GET+Upgrade" : "CONNECT", status,
+                     payload == 0 ? "none" : payload == 1 ? "2 HTTP requests" : "TLS-like bytes", body, qc, rc, ad);
+            if (id % 700 == 0) hx_emit_sample(TT.desc);
+            tunnel_exec(pq, nq, pr, nr, head_chunk, ad);
+        }
+    }
+    hx_emit_stat("tunnel_scenarios", hx_shard_i == 0 ? tunnel_counter : 0);
+}
+
 static int worker(int argc, char **argv) {
     PROPS = hx_arg(argc, argv, "--props", "C03");
     const char *mode = hx_arg(argc, argv, "--mode", "seg");
@@ -496,6 +620,7 @@ static int worker(int argc, char **argv) {
     else if (!strcmp(mode, "gen")) mode_gen(argc, argv);
     else if (!strcmp(mode, "body")) mode_body(argc, argv);
     else if (!strcmp(mode, "pair")) mode_pair(argc, argv);
+    else if (!strcmp(mode, "tunnel")) mode_tunnel(argc, argv);
     else { fprintf(stderr, "cutmc: unknown mode %s\n", mode); return 2; }
     hx_emit_stat("executions", n_exec); hx_emit_stat("calls", n_calls); hx_emit_stat("distinct_outcomes", (long long) outcomes.cnt);
     return 0;
